@@ -27,6 +27,7 @@ EXPLANATION = (
     "Entry points are resolved as defined or inherited: a simulator that drops its own run_and_measure inherits the base runner's counting, which is reported."
     ' Round 4: a batch handed over to the single-circuit entry point is dominated by the length guard.'
     ' Round 5: the segments counted as jobs are the non-empty consecutive runs of split_circuit (C01-D1).'
+    ' Round 6: (D6) stale loop variables.'
 )
 RULE_TEXT = "instances = (class, entry point, execution call) triples, counter writes, guard tests, tracker return/record fields; distinct by (rule, construct)"
 ASSUMPTIONS = [
